@@ -172,6 +172,12 @@ def cres_lit(obs) -> str:
     return f"(Ok ({val_lit(obs[1])}, {dim_lit(obs[2])}))"
 
 
+PREAMBLE_COLLECT = """From Coq Require Import List QArith ZArith NArith Bool.
+From VP Require Import Base.Util Base.Dim Base.Val Model.CollectQ.
+Import ListNotations.
+Local Open Scope Q_scope.
+"""
+
 PREAMBLE = """From Coq Require Import List QArith ZArith NArith Bool.
 From VP Require Import Base.Util Base.Dim Base.Val Model.CollectQ Model.Gate.
 Import ListNotations.
